@@ -78,6 +78,11 @@ def gen_image(r, J):
             if r.random() < 0.4:
                 # the pair lives in a sub directory, stored with a basic or an extended directory inode
                 pre = b"g" + u
+                if r.random() < 0.5:
+                    # ... below a directory whose only entry is that sub directory (a walk that treats "one entry" as "nothing to do")
+                    t[b"w" + u] = Node("dir", 0o755)
+                    pre = b"w" + u + b"/" + pre
+                    feats.add("pair-below-single-entry-dir")
                 t[pre] = Node("dir", 0o755, xattrs={b"user.g": u} if r.random() < 0.6 else {})
                 t[pre + b"/between"] = Node("file", 0o644, data=[("bytes", b"between")])
                 feats.add("nested-pair")
@@ -95,7 +100,7 @@ def gen_image(r, J):
                 t[cv] = Node("file", 0o644, data=[("bytes", b"case variant")])
                 raw[cv] = nm.upper() if nm.upper() != nm else nm.lower()
                 feats.add("case-variant-between")
-            t[a] = Node("slink", 0o777, target=r.choice(targets if not pre else [b"../" + x if not x.startswith(b"/") else x for x in targets]))
+            t[a] = Node("slink", 0o777, target=r.choice(targets if not pre else [b"../" * pre.count(b"/") + x if not x.startswith(b"/") else x for x in targets]))
             raw[a] = nm
             if kind == "symlink-then-dir":
                 t[b_] = Node("dir", 0o777)
